@@ -105,13 +105,33 @@ class Clause:
         return guarded(call, case)
 
 
+def enum_refusal_sub(exc: BaseException) -> Optional[str]:
+    """``LibraryEnum(code point)`` refused a value the harness took from a standard's table: that is the library not knowing a code
+    point of the standard (a deviation), not a slip of the harness.  Only for enumerations defined inside the library."""
+    import enum
+    import re
+    import sys
+
+    if not isinstance(exc, ValueError):
+        return None
+    m = re.fullmatch(r"(-?\d+) is not a valid (\w+)", str(exc))
+    if not m:
+        return None
+    for name, mod in list(sys.modules.items()):
+        if name.startswith("spacepackets") and mod is not None:
+            cls = getattr(mod, m.group(2), None)
+            if isinstance(cls, type) and issubclass(cls, enum.Enum) and cls.__module__.startswith("spacepackets"):
+                return f"enum:{m.group(2)}:refuses_code_point_{m.group(1)}"
+    return None
+
+
 def guarded(fn, *args) -> List[Dev]:
     try:
         return list(fn(*args) or [])
     except HarnessError:
         raise
     except Exception as e:  # noqa: BLE001 - classified below
-        sub = exc_sub(e)
+        sub = exc_sub(e) or enum_refusal_sub(e)
         if sub is None:
             raise
         return [Dev(sub, f"{type(e).__name__}: {e}"[:300])]
@@ -182,7 +202,7 @@ def guarded_state(fn, *args):
     except HarnessError:
         raise
     except Exception as e:  # noqa: BLE001
-        sub = exc_sub(e)
+        sub = exc_sub(e) or enum_refusal_sub(e)
         if sub is None:
             raise
         return [Dev(sub, f"{type(e).__name__}: {e}"[:300])]
@@ -240,9 +260,29 @@ def scribble(buf) -> bool:
     if isinstance(buf, bytearray):
         for i in range(len(buf)):
             buf[i] ^= 0xA5
-        buf.extend(b"\xee\xee\xee")
+        try:
+            buf.extend(b"\xee\xee\xee")
+        except BufferError:
+            # somebody holds a memoryview on the caller's buffer; the overwrite above already shows whether that matters
+            pass
         return True
     return False
+
+
+def child_python(prog: str, args=(), flags=(), env_extra=None, timeout=180):
+    """Run ``prog`` in a fresh interpreter (first use of the library in a process, other interpreter flags, other locale).
+    argv[1] is the repository path (the child puts it first on sys.path); the child prints one JSON document on stdout.
+    A child that does not deliver one is a harness error."""
+    import json
+    import subprocess
+    import sys
+
+    env = {"PATH": "/usr/bin:/bin", "PYTHONDONTWRITEBYTECODE": "1", "PYTHONHASHSEED": "0", "LC_ALL": "C.UTF-8"}
+    env.update(env_extra or {})
+    r = subprocess.run([sys.executable, "-B", *flags, "-c", "import sys; sys.path.insert(0, sys.argv[1])\n" + prog, REPO, *args], env=env, capture_output=True, timeout=timeout)
+    if r.returncode != 0:
+        raise RuntimeError("child interpreter failed: " + r.stderr.decode("ascii", "replace")[-600:])
+    return json.loads(r.stdout.decode("ascii"))
 
 
 def pack_fresh(devs: List[Dev], sub: str, pack, want: bytes, **kw):
